@@ -30,7 +30,7 @@ type Config struct {
 	OffsetS   int      `json:"offset_s"`   // -1: constructor default (1s)
 	MaxIATS   int      `json:"max_iat_s"`  // 0: off
 	MaxAuthS  int      `json:"max_auth_s"` // 0: off
-	NonceMode string   `json:"nonce_mode"` // default | fixed | nil
+	NonceMode string   `json:"nonce_mode"` // default | fixed | nil | ctx (the nonce function reads the expected nonce from the context of the call)
 	Nonce     string   `json:"nonce"`      // for fixed
 	ACR       []string `json:"acr"`        // nil: no acr policy
 	Algs      []string `json:"algs"`       // nil: default list
@@ -74,6 +74,10 @@ type TokenSpec struct {
 	AccessTok string      `json:"access_token"`
 	WithAT    bool        `json:"with_at"` // call VerifyTokens instead of VerifyIDToken
 	Nb        *Neighbours `json:"nb,omitempty"`
+	// Via: the entry point of pkg/client/rp the token is delivered through (only with Case.RP): "" = rp.VerifyIDToken /
+	// rp.VerifyTokens with the RP's verifier | code | handler | userinfo | refresh (see rp_test.go). The entry points
+	// other than "" receive the token in a token response of the fake OP, together with AccessTok.
+	Via string `json:"via,omitempty"`
 }
 
 // Step is one entry of a history on ONE verifier instance in one process: a verification, or a call of an exported helper
@@ -98,6 +102,11 @@ type Case struct {
 	StandIn map[string]string `json:"stand_in,omitempty"`
 	Steps   []Step            `json:"steps,omitempty"` // run after the verification of Tok, same verifier
 	Conc    [][]Step          `json:"conc,omitempty"`  // goroutines released together on one verifier; Tok is the first step of goroutine 0
+
+	// RP != nil: the verifier is the one of a RelyingParty built by rp.NewRelyingPartyOIDC + rp.WithVerifierOpts against a
+	// fake OP (RoundTripper); its key set is the RP's remote key set fed from the fake OP's JWKS. All verifications of the
+	// case run on this ONE RelyingParty, each through its TokenSpec.Via.
+	RP *RPSpec `json:"rp,omitempty"`
 }
 
 // ---- generator ------------------------------------------------------------------
@@ -119,8 +128,8 @@ func genCfg(t *rapid.T) Config {
 	cfg.OffsetS = rapid.SampledFrom([]int{-1, -1, 0, 1, 5, 60}).Draw(t, "offset")
 	cfg.MaxIATS = rapid.SampledFrom([]int{0, 0, 10, 300}).Draw(t, "maxiat")
 	cfg.MaxAuthS = rapid.SampledFrom([]int{0, 0, 60, 3600}).Draw(t, "maxauth")
-	cfg.NonceMode = rapid.SampledFrom([]string{"default", "fixed", "fixed", "nil"}).Draw(t, "noncemode")
-	if cfg.NonceMode == "fixed" {
+	cfg.NonceMode = rapid.SampledFrom([]string{"default", "fixed", "fixed", "nil", "ctx"}).Draw(t, "noncemode")
+	if cfg.NonceMode == "fixed" || cfg.NonceMode == "ctx" {
 		cfg.Nonce = rapid.SampledFrom([]string{"n-1", "N-1", "n 1"}).Draw(t, "cfgnonce")
 	}
 	if rapid.IntRange(0, 2).Draw(t, "acrpolicy") == 0 {
@@ -149,8 +158,9 @@ func fittingKeys(alg string) []string {
 
 // genToken draws alg, key and claims of one token for a verifier configured with cfg. atBias: most tokens come as a
 // token response (with access token and at_hash).
-func genToken(t *rapid.T, cfg Config, atBias bool) TokenSpec {
+func genToken(t *rapid.T, cfg Config, atBias bool, via string) TokenSpec {
 	var tok TokenSpec
+	tok.Via = via
 	// signing key and alg: mostly one the verifier allows
 	if rapid.IntRange(0, 9).Draw(t, "algok") > 0 {
 		tok.Alg = rapid.SampledFrom(allowedAlgs(cfg)).Draw(t, "alg")
@@ -168,7 +178,7 @@ func genToken(t *rapid.T, cfg Config, atBias bool) TokenSpec {
 	tok.Iat = TimeSpec{Rel: now - 5}
 	tok.AuthTime = TimeSpec{Rel: now - 20}
 	switch cfg.NonceMode {
-	case "fixed":
+	case "fixed", "ctx":
 		tok.Nonce = sp(cfg.Nonce)
 	case "nil":
 		if rapid.Bool().Draw(t, "anynonce") {
@@ -180,9 +190,17 @@ func genToken(t *rapid.T, cfg Config, atBias bool) TokenSpec {
 	}
 	tok.AtHash = "absent"
 	tok.AccessTok = rapid.SampledFrom([]string{"at-1", "eyJhbGciOiJSUzI1NiJ9.e30.c2ln", "", "at-2-" + strings.Repeat("z", 200)}).Draw(t, "at")
-	tok.WithAT = rapid.Bool().Draw(t, "withat")
-	if atBias && !tok.WithAT {
-		tok.WithAT = rapid.IntRange(0, 3).Draw(t, "withat2") > 0
+	if via != "" {
+		// a token response: always verified together with its access token; a response without one is rare
+		tok.WithAT = true
+		if tok.AccessTok == "" && rapid.IntRange(0, 3).Draw(t, "emptyat") > 0 {
+			tok.AccessTok = "at-3"
+		}
+	} else {
+		tok.WithAT = rapid.Bool().Draw(t, "withat")
+		if atBias && !tok.WithAT {
+			tok.WithAT = rapid.IntRange(0, 3).Draw(t, "withat2") > 0
+		}
 	}
 	if tok.WithAT {
 		tok.AtHash = rapid.SampledFrom([]string{"absent", "correct", "correct", "correct"}).Draw(t, "athash0")
@@ -282,7 +300,7 @@ func trust(t *rapid.T, c *Case, tok *TokenSpec) {
 }
 
 func genTrustedToken(t *rapid.T, c *Case, atBias bool) TokenSpec {
-	tok := genToken(t, c.Cfg, atBias)
+	tok := genToken(t, c.Cfg, atBias, genVia(t, c))
 	trust(t, c, &tok)
 	return tok
 }
@@ -327,6 +345,9 @@ func algsOf(c *Case) []string {
 func genCase(t *rapid.T) Case {
 	c := Case{V: 2}
 	c.Cfg = genCfg(t)
+	if rapid.IntRange(0, 9).Draw(t, "rp") < 4 {
+		c.RP = genRP(t)
+	}
 	seq := rapid.IntRange(0, 9).Draw(t, "kind") >= 6
 	c.Tok = genTrustedToken(t, &c, seq)
 	if !seq {
@@ -341,8 +362,11 @@ func genCase(t *rapid.T) Case {
 		}
 		var tok TokenSpec
 		if rapid.IntRange(0, 4).Draw(t, "again") == 0 {
-			// an earlier token response once more (fresh signature, same claims)
+			// an earlier token response once more (fresh signature, same claims), on an RP through any entry point
 			tok = toks[rapid.IntRange(0, len(toks)-1).Draw(t, "which")]
+			if tok.Via = genVia(t, &c); tok.Via != "" {
+				tok.WithAT = true
+			}
 		} else {
 			tok = genTrustedToken(t, &c, true)
 		}
@@ -357,6 +381,9 @@ func genCase(t *rapid.T) Case {
 func genConcCase(t *rapid.T) Case {
 	c := Case{V: 2}
 	c.Cfg = genCfg(t)
+	if rapid.IntRange(0, 9).Draw(t, "rp") < 4 {
+		c.RP = genRP(t)
+	}
 	c.Tok = genTrustedToken(t, &c, true)
 	k := rapid.IntRange(2, 6).Draw(t, "goroutines")
 	for g := 0; g < k; g++ {
@@ -597,7 +624,14 @@ const guard = 2 // seconds of clock-rounding margin on both sides of every bound
 
 // verdict: +1 must accept, -1 must reject, 0 grey. reasons name the failed conditions.
 // The model looks at the claims the statement names and at nothing else (tok.Nb and tok.Extra are invisible to it).
-func model(cfg Config, tok TokenSpec, keyOK bool) (verdict int, reject []string, grey []string) {
+//
+// via = the entry point. The conditions are the same for all of them, with one exception: rp.RefreshTokens and the nonce.
+// The nonce belongs to the authentication request; OIDC Core 12.2 says the ID token of a refresh response SHOULD NOT carry
+// one (and if it does, it must repeat the original one, which an RP no longer holds). The unchanged library applies the
+// verifier's nonce function on refresh like everywhere else; an implementation that does not would follow Core 12.2. What
+// "the configured nonce requirement" is for a refresh response is therefore not decided by the statement: a token whose
+// nonce condition fails is grey there (neither side asserted); all other conditions are asserted as everywhere.
+func model(cfg Config, tok TokenSpec, keyOK bool, via string) (verdict int, reject []string, grey []string) {
 	off := cfg.OffsetS
 	if off < 0 {
 		off = 1
@@ -664,14 +698,21 @@ func model(cfg Config, tok TokenSpec, keyOK bool) (verdict int, reject []string,
 			}
 		}
 	}
+	rejNonce := func() {
+		if via == viaRefresh {
+			gry("refresh-nonce")
+		} else {
+			rej("nonce")
+		}
+	}
 	switch cfg.NonceMode {
 	case "default":
 		if tok.Nonce != nil && *tok.Nonce != "" {
-			rej("nonce")
+			rejNonce()
 		}
-	case "fixed":
+	case "fixed", "ctx":
 		if tok.Nonce == nil || *tok.Nonce != cfg.Nonce {
-			rej("nonce")
+			rejNonce()
 		}
 	}
 	if cfg.ACR != nil {
@@ -696,11 +737,15 @@ func model(cfg Config, tok TokenSpec, keyOK bool) (verdict int, reject []string,
 			}
 		}
 	}
-	if tok.WithAT {
+	if tok.WithAT || via != "" {
 		switch tok.AtHash {
 		case "otheralg", "full", "othertoken", "junk":
 			rej("at_hash")
 		}
+	}
+	if via != "" && tok.AccessTok == "" {
+		// not a token response (RFC 6749 5.1: access_token is required); the OAuth2 layer may refuse it before any verification
+		gry("response-without-access-token")
 	}
 	if len(reject) > 0 {
 		return -1, reject, grey
@@ -772,9 +817,8 @@ func kidOf(c Case, keyName string) string {
 	return keyName
 }
 
-func newVerifier(c Case) *rp.IDTokenVerifier {
-	// verifier through the public constructor
-	ks := keySet(c)
+// verifierOpts: the configuration as verifier options (withAlgs=false: the allowed algorithms come another way).
+func verifierOpts(c Case, withAlgs bool) []rp.VerifierOption {
 	var opts []rp.VerifierOption
 	if c.Cfg.OffsetS >= 0 {
 		opts = append(opts, rp.WithIssuedAtOffset(time.Duration(c.Cfg.OffsetS)*time.Second))
@@ -789,16 +833,43 @@ func newVerifier(c Case) *rp.IDTokenVerifier {
 	case "fixed":
 		n := c.Cfg.Nonce
 		opts = append(opts, rp.WithNonce(func(context.Context) string { return n }))
+	case "ctx":
+		// what WithNonce's context parameter is for: the application stores the nonce of the authentication request in
+		// the context it hands to the library (every call of the harness carries it, see callContext)
+		opts = append(opts, rp.WithNonce(func(ctx context.Context) string {
+			n, _ := ctx.Value(nonceKey{}).(string)
+			return n
+		}))
 	case "nil":
 		opts = append(opts, rp.WithNonce(nil))
 	}
 	if c.Cfg.ACR != nil {
 		opts = append(opts, rp.WithACRVerifier(oidc.DefaultACRVerifier(c.Cfg.ACR)))
 	}
-	if c.Cfg.Algs != nil {
+	if c.Cfg.Algs != nil && withAlgs {
 		opts = append(opts, rp.WithSupportedSigningAlgorithms(c.Cfg.Algs...))
 	}
-	return rp.NewIDTokenVerifier(c.Cfg.Issuer, c.Cfg.ClientID, ks, opts...)
+	return opts
+}
+
+// sut: the verifier under test - on its own (public constructor), or inside a RelyingParty.
+type sut struct {
+	v     *rp.IDTokenVerifier
+	party rp.RelyingParty
+	op    *fakeOP
+}
+
+func newSUT(c Case) (*sut, error) {
+	if c.RP == nil {
+		return &sut{v: rp.NewIDTokenVerifier(c.Cfg.Issuer, c.Cfg.ClientID, keySet(c), verifierOpts(c, true)...)}, nil
+	}
+	s := &sut{op: newFakeOP(c)}
+	party, err := newParty(c, s.op)
+	if err != nil {
+		return nil, err
+	}
+	s.party, s.v = party, party.IDTokenVerifier()
+	return s, nil
 }
 
 // built is a signed token (claims relative to the wall clock t0).
@@ -806,11 +877,16 @@ type built struct {
 	pm    map[string]any
 	token string
 	t0    time.Time
+	via   string
+	prep  prepared
 }
 
-func buildToken(tok TokenSpec, t0 time.Time) built {
-	pm, payload := buildPayload(tok, t0)
-	return built{pm: pm, token: vkit.MustSignJWT(tok.Alg, tok.Key, vkit.Key(tok.Key), payload), t0: t0}
+// buildToken signs the token and sets up its delivery (fake OP answer, callback request).
+func buildToken(c Case, s *sut, tok *TokenSpec, t0 time.Time) built {
+	pm, payload := buildPayload(*tok, t0)
+	b := built{pm: pm, token: vkit.MustSignJWT(tok.Alg, tok.Key, vkit.Key(tok.Key), payload), t0: t0, via: viaOf(c, tok)}
+	b.prep = prepare(c, s, b.via, tok, b.token)
+	return b
 }
 
 // outcome of one library call.
@@ -824,17 +900,22 @@ type outcome struct {
 }
 
 // execVerify only calls the library (it also runs inside the goroutines of the concurrent sub-check).
-func execVerify(v *rp.IDTokenVerifier, tok *TokenSpec, token string) (o outcome) {
+func execVerify(s *sut, tok *TokenSpec, b *built) (o outcome) {
 	defer func() {
 		if p := recover(); p != nil {
 			o.pan, o.stack = p, string(debug.Stack())
 		}
 		o.t1 = time.Now()
 	}()
-	if tok.WithAT {
-		o.claims, o.err = rp.VerifyTokens[*oidc.IDTokenClaims](context.Background(), tok.AccessTok, token, v)
-	} else {
-		o.claims, o.err = rp.VerifyIDToken[*oidc.IDTokenClaims](context.Background(), token, v)
+	switch {
+	case b.prep.err != nil:
+		o.err = b.prep.err
+	case b.via != "":
+		o.claims, o.err = deliver(s, b.via, b.prep)
+	case tok.WithAT:
+		o.claims, o.err = rp.VerifyTokens[*oidc.IDTokenClaims](b.prep.ctx, tok.AccessTok, b.token, s.v)
+	default:
+		o.claims, o.err = rp.VerifyIDToken[*oidc.IDTokenClaims](b.prep.ctx, b.token, s.v)
 	}
 	return o
 }
@@ -885,6 +966,7 @@ type stepInfo struct {
 	Model    int      `json:"model"`
 	Reject   []string `json:"reject,omitempty"`
 	Grey     []string `json:"grey,omitempty"`
+	Via      string   `json:"via,omitempty"`
 	key      string
 	nontriv  bool
 }
@@ -895,7 +977,13 @@ func judgeVerify(res *vkit.Result, c Case, tok TokenSpec, b built, o outcome, wh
 		res.Fail("C01:panic@"+vkit.FirstLibFrame(o.stack), "%sverifier panicked: %v", where, o.pan)
 		return stepInfo{Op: "verify"}
 	}
-	verdict, reject, grey := model(c.Cfg, tok, contains(c.Trusted, tok.Key))
+	via := b.via
+	verdict, reject, grey := model(c.Cfg, tok, contains(c.Trusted, tok.Key), via)
+	if b.prep.err != nil {
+		// the harness could not set the delivery up (login redirect of the RP did not hand out cookies): nothing was verified
+		res.Label("delivery-not-set-up")
+		return stepInfo{Op: "verify", Via: via, Grey: []string{"delivery-not-set-up"}}
+	}
 	// Claims are relative to the truncated second of t0 (up to 1 s behind the clock) and the library rounds
 	// now+offset to the nearest second (up to 0.5 s ahead), so the 2 s guard holds only while the case takes
 	// less than 0.5 s: beyond 400 ms (loaded machine) the time-dependent verdicts are grey.
@@ -905,12 +993,17 @@ func judgeVerify(res *vkit.Result, c Case, tok TokenSpec, b built, o outcome, wh
 	}
 	claims, err := o.claims, o.err
 	accepted := err == nil
+	at := "" // entry point in fingerprints and messages (none for the verifier called directly: the fingerprints of before)
+	if via != "" {
+		at = "@" + via
+		where += "delivered through " + entryName[via] + ": "
+	}
 
 	switch verdict {
 	case 1:
 		res.Label("must-accept")
 		if !accepted {
-			res.Fail("C01:complete", "%svalid token rejected: %v", where, err)
+			res.Fail("C01:complete"+at, "%svalid token rejected: %v", where, err)
 		}
 	case -1:
 		res.Label("must-reject")
@@ -919,7 +1012,7 @@ func judgeVerify(res *vkit.Result, c Case, tok TokenSpec, b built, o outcome, wh
 			res.Label("reject:" + r)
 		}
 		if accepted {
-			res.Fail("C01:sound:"+strings.Join(reject, "+"), "%stoken accepted although it violates %v", where, reject)
+			res.Fail("C01:sound:"+strings.Join(reject, "+")+at, "%stoken accepted although it violates %v", where, reject)
 		}
 	default:
 		res.Label("grey")
@@ -935,7 +1028,7 @@ func judgeVerify(res *vkit.Result, c Case, tok TokenSpec, b built, o outcome, wh
 			if !reflect.DeepEqual(got, want) {
 				gb, _ := json.Marshal(got)
 				wb, _ := json.Marshal(want)
-				res.Fail("C01:claims-unchanged", "%sreturned claims differ from the signed payload: got %s want %s", where, gb, wb)
+				res.Fail("C01:claims-unchanged"+at, "%sreturned claims differ from the signed payload: got %s want %s", where, gb, wb)
 			}
 			if string(claims.GetSignatureAlgorithm()) != tok.Alg {
 				res.Fail("C01:sigalg", "%sSignatureAlg=%q, header alg=%q", where, claims.GetSignatureAlgorithm(), tok.Alg)
@@ -947,11 +1040,35 @@ func judgeVerify(res *vkit.Result, c Case, tok TokenSpec, b built, o outcome, wh
 		}
 	}
 	labelNeighbours(res, c.Cfg, tok, verdict)
+	labelVia(res, c, via, verdict, reject)
 
 	nm := len(reject) + len(grey)
-	return stepInfo{Op: "verify", Accepted: accepted, Model: verdict, Reject: reject, Grey: grey,
+	return stepInfo{Op: "verify", Accepted: accepted, Model: verdict, Reject: reject, Grey: grey, Via: via,
 		nontriv: nm >= 2 || len(grey) > 0 || len(audOf(tok)) > 1,
-		key:     tokKey(tok, verdict, reject, grey)}
+		key:     "via=" + via + " " + tokKey(tok, verdict, reject, grey)}
+}
+
+// labelVia: the entry point classes; sole:<condition> = tokens that violate exactly one condition, i.e. the ones that
+// get through when one entry point forgets that condition.
+func labelVia(res *vkit.Result, c Case, via string, verdict int, reject []string) {
+	if c.RP == nil {
+		res.Label("entry:verifier")
+		return
+	}
+	name := via
+	if name == "" {
+		name = "rp-verifier"
+	}
+	res.Label("entry:" + name + "/" + map[int]string{1: "must-accept", -1: "must-reject", 0: "grey"}[verdict])
+	if len(reject) == 1 {
+		res.Label("entry:" + name + "/sole:" + reject[0])
+	}
+	if c.RP.AlgsFromDiscovery {
+		res.Label("rp:algs-from-discovery")
+	}
+	if c.RP.Cookies != "" && (via == viaHandler || via == viaUserinfo) {
+		res.Label("rp:handler-with-" + c.RP.Cookies + "-cookies")
+	}
 }
 
 func labelNeighbours(res *vkit.Result, cfg Config, tok TokenSpec, verdict int) {
@@ -1024,15 +1141,22 @@ func hashFamily(alg string) string {
 
 func run(c Case) *vkit.Result {
 	res := &vkit.Result{}
-	v := newVerifier(c)
+	v, err := newSUT(c)
+	if err != nil {
+		// discovery against the fake OP is not what this property is about: nothing asserted
+		res.Label("rp-not-built")
+		res.Info = map[string]any{"rp_setup_error": err.Error()}
+		res.Grey = true
+		return res
+	}
 	if len(c.Conc) > 0 {
 		runConc(c, v, res)
 		return res
 	}
 	if len(c.Steps) == 0 {
 		// one verification on a fresh verifier; the token is built relative to the wall clock right before the call
-		b := buildToken(c.Tok, time.Now())
-		o := execVerify(v, &c.Tok, b.token)
+		b := buildToken(c, v, &c.Tok, time.Now())
+		o := execVerify(v, &c.Tok, &b)
 		si := judgeVerify(res, c, c.Tok, b, o, "")
 		res.Info = map[string]any{"accepted": si.Accepted, "model": si.Model, "reject": si.Reject, "grey": si.Grey}
 		res.Grey = si.Model == 0
@@ -1052,8 +1176,8 @@ func run(c Case) *vkit.Result {
 		where := fmt.Sprintf("step %d of %d: ", i+1, len(steps))
 		var si stepInfo
 		if s.Op == "verify" && s.Tok != nil {
-			b := buildToken(*s.Tok, time.Now())
-			o := execVerify(v, s.Tok, b.token)
+			b := buildToken(c, v, s.Tok, time.Now())
+			o := execVerify(v, s.Tok, &b)
 			si = judgeVerify(res, c, *s.Tok, b, o, where)
 			nver++
 			allGrey = allGrey && si.Model == 0
@@ -1082,7 +1206,7 @@ func run(c Case) *vkit.Result {
 }
 
 // runConc: the goroutines only call the library; tokens are built before, every step is judged after all have ended.
-func runConc(c Case, v *rp.IDTokenVerifier, res *vkit.Result) {
+func runConc(c Case, v *sut, res *vkit.Result) {
 	lists := make([][]Step, len(c.Conc))
 	for g := range c.Conc {
 		if g == 0 {
@@ -1099,7 +1223,7 @@ func runConc(c Case, v *rp.IDTokenVerifier, res *vkit.Result) {
 		outs[g] = make([]outcome, len(steps))
 		for i, s := range steps {
 			if s.Op == "verify" && s.Tok != nil {
-				toks[g][i] = buildToken(*s.Tok, t0)
+				toks[g][i] = buildToken(c, v, s.Tok, t0)
 			}
 		}
 	}
@@ -1113,7 +1237,7 @@ func runConc(c Case, v *rp.IDTokenVerifier, res *vkit.Result) {
 			for i := range lists[g] {
 				s := &lists[g][i]
 				if s.Op == "verify" && s.Tok != nil {
-					outs[g][i] = execVerify(v, s.Tok, toks[g][i].token)
+					outs[g][i] = execVerify(v, s.Tok, &toks[g][i])
 				} else {
 					outs[g][i] = execHelper(s)
 				}
@@ -1176,7 +1300,13 @@ func tokKey(tok TokenSpec, verdict int, reject, grey []string) string {
 		verdict, reject, grey, len(audOf(tok)), tok.Alg, tok.AtHash, tok.WithAT, tok.Exp.Rel, tok.Iat.Rel, tok.AuthTime.Rel, nb)
 }
 
-const ruleToken = "verifier config (issuer, client, offset, max iat age, max auth age, nonce mode, acr list, alg list) x signed token with 0-3 mutated claim dimensions incl. times at +-{0,1,2,3,5,30,3600}s around each bound; " +
+const ruleEntry = "entry point dimension: 40 % of the cases put the verifier inside a RelyingParty built by rp.NewRelyingPartyOIDC + rp.WithVerifierOpts(all generated verifier options) against a fake OP in an http.RoundTripper " +
+	"(discovery, JWKS feeding the RP's remote key set, token endpoint, userinfo; allowed algs via WithSupportedSigningAlgorithms or via discovery + WithSigningAlgsFromDiscovery; no / state / PKCE cookie handler); each token of such a case is delivered through a generated entry point: " +
+	"rp.VerifyIDToken / rp.VerifyTokens with the RP's verifier, rp.CodeExchange, rp.CodeExchangeHandler (claims as the callback gets them; login redirect through rp.AuthURLHandler first when cookies are configured), " +
+	"rp.CodeExchangeHandler + rp.UserinfoCallback, rp.RefreshTokens; the token endpoint answers with exactly the generated token + access token and the same per-token oracle decides " +
+	"(only difference: a failing nonce condition on rp.RefreshTokens is grey, OIDC Core 12.2; a response without access_token is grey for completeness)"
+
+const ruleToken = "verifier config (issuer, client, offset, max iat age, max auth age, nonce mode incl. a nonce function that reads the expected nonce from the context of the call, acr list, alg list) x signed token with 0-3 mutated claim dimensions incl. times at +-{0,1,2,3,5,30,3600}s around each bound; " +
 	"half of the tokens also carry generated neighbour claims the statement does not mention (client_id equal / other party / empty, scope, jti, nbf in the past, amr, sid, c_hash, act, look-alike custom members " +
 	"audience / authorized_party / cid / s_hash / issuer / ...), which the model does not see: they must not change the verdict and must come back with the signed claims"
 
@@ -1184,8 +1314,8 @@ var prop = vkit.Prop[Case]{
 	ID: "C01",
 	Rule: "cases = " + ruleToken + "; 60 % one verification on a fresh verifier, 40 % histories of 2-5 verifications (generated tokens, or an earlier token response once more) on ONE verifier in one process, " +
 		"interleaved with 0-2 generated calls of exported helpers a relying party may use (crypto.GetHashAlgorithm + Write [+ Sum] [+ Reset] on the returned hash, oidc.ClaimHash, crypto.HashString, rp.VerifyAccessToken directly), " +
-		"every verification judged by the same per-token oracle with its own t0/t1 bracket; " +
-		"non-trivial = >=2 conditions violated or in a tolerance window, or any time within the window, or multi-audience, or a history with >=2 verifications; distinct = (config, per verification: verdict, violated set, window set, aud size, alg, at_hash class, relative times, client_id neighbour; per helper: op, alg, use)",
+		"every verification judged by the same per-token oracle with its own t0/t1 bracket; " + ruleEntry + "; histories on one RelyingParty mix the entry points (an earlier token response is re-delivered through another one); " +
+		"non-trivial = >=2 conditions violated or in a tolerance window, or any time within the window, or multi-audience, or a history with >=2 verifications; distinct = (config, per verification: entry point, verdict, violated set, window set, aud size, alg, at_hash class, relative times, client_id neighbour; per helper: op, alg, use)",
 	Gen: genCase,
 	Run: run,
 }
@@ -1196,7 +1326,7 @@ var propConc = vkit.Prop[Case]{
 	Rule: "concurrent sub-check (-race binary, GORACE=halt_on_error): 2-6 goroutines with 1-3 steps each (verifications of generated valid and invalid token responses, mostly with access token and at_hash; 1 in 5 an exported helper call) " +
 		"on ONE shared verifier, tokens built and signed before, goroutines released together by a barrier, they only call the library and store what it returned; every verification is judged after all goroutines have ended by the per-token oracle " +
 		"(claims relative to the common t0; a goroutine that finished later than t0+400 ms is grey); a data race report kills the process and the driver reports the case on disk; " +
-		"tokens = " + ruleToken + "; non-trivial = >=2 goroutines and >=2 verifications; distinct = (config, per goroutine the verification / helper classes)",
+		"tokens = " + ruleToken + "; " + ruleEntry + " (all goroutines share the one RelyingParty; the fake OP is stateless, the answer for a call travels in the call's context); non-trivial = >=2 goroutines and >=2 verifications; distinct = (config, per goroutine the verification / helper classes)",
 	Gen:   genConcCase,
 	Run:   run,
 	Track: true,
